@@ -323,12 +323,15 @@ func (h *c09) checkRoundTrip(p []byte, insts []vm.Instruction, text string) {
 		}
 		pc += int(i.Len)
 	}
-	detail := fmt.Sprintf("prog %s disassembles to %q; Assemble: ", hx(p), text)
+	detail := "Assemble(Disassemble(prog)) = "
 	if aerr != nil {
 		detail += "error " + aerr.Error()
+	} else if len(q) > 60 {
+		detail += hx(q[:60]) + "…"
 	} else {
 		detail += hx(q)
 	}
+	detail += fmt.Sprintf("; prog %s disassembles to %q", hx(p), text)
 	switch {
 	case offBoundary:
 		h.fail("asm_disasm:jump-target-not-boundary", detail)
@@ -708,6 +711,95 @@ func (h *c09) checkAcceptsOnlyBuilt(p []byte, r c09rec) {
 		} else {
 			report("straight", rt, nil)
 		}
+	}
+}
+
+// genJumpHeavy: a parsable program with exactly k distinct JUMP/JUMPIF targets, all on
+// instruction boundaries (program start and end included) unless off > 0, in which case
+// `off` of the jumps point into the middle of an instruction or past the end (F6a class).
+// The order in which the targets first appear (= their label numbers) is random.
+func (h *c09) genJumpHeavy(k, off int) []byte {
+	r := h.c.Rng
+	// layout: k jumps interleaved with a few plain ops / canonical pushes
+	type piece struct {
+		b    []byte
+		jump bool
+	}
+	var ps []piece
+	for i := 0; i < k; i++ {
+		op := byte(vm.OP_JUMP)
+		if r.Intn(2) == 0 {
+			op = byte(vm.OP_JUMPIF)
+		}
+		ps = append(ps, piece{b: []byte{op, 0, 0, 0, 0}, jump: true})
+		switch r.Intn(4) {
+		case 0:
+			ps = append(ps, piece{b: []byte{c09plainOps[r.Intn(len(c09plainOps))]}})
+		case 1:
+			ps = append(ps, piece{b: vm.PushDataBytes(h.rbytes(1 + r.Intn(6)))})
+		}
+	}
+	r.Shuffle(len(ps), func(i, j int) { ps[i], ps[j] = ps[j], ps[i] })
+	var bounds []uint32
+	pos := uint32(0)
+	for _, x := range ps {
+		bounds = append(bounds, pos)
+		pos += uint32(len(x.b))
+	}
+	bounds = append(bounds, pos) // the end of the program
+	// k distinct boundaries; always try to include start and end
+	perm := r.Perm(len(bounds))
+	targets := []uint32{}
+	seen := map[uint32]bool{}
+	add := func(t uint32) {
+		if !seen[t] && len(targets) < k {
+			seen[t] = true
+			targets = append(targets, t)
+		}
+	}
+	if k >= 2 {
+		add(0)
+		add(pos)
+	}
+	for _, i := range perm {
+		add(bounds[i])
+	}
+	r.Shuffle(len(targets), func(i, j int) { targets[i], targets[j] = targets[j], targets[i] })
+	var prog []byte
+	j := 0
+	for _, x := range ps {
+		if x.jump {
+			t := targets[j%len(targets)]
+			if j < off {
+				if r.Intn(2) == 0 {
+					t = pos + 1 + uint32(r.Intn(5)) // past the end
+				} else {
+					t = bounds[r.Intn(len(bounds)-1)] + 1 // inside an instruction (every piece next to a jump is >= 1 byte; a jump is 5)
+				}
+			}
+			binary.LittleEndian.PutUint32(x.b[1:], t)
+			j++
+		}
+		prog = append(prog, x.b...)
+	}
+	return prog
+}
+
+func (h *c09) jumpHeavy() {
+	ks := []int{1, 2, 25, 26, 27, 28, 52, 53, 54, 100}
+	if h.c.Tier != "quick" {
+		ks = append(ks, 259, 260, 261, 700)
+	}
+	for _, k := range ks {
+		p := h.genJumpHeavy(k, 0)
+		h.opParse(p)
+		h.opDis(p)
+		h.c.Count(fmt.Sprintf("jumpheavy/k=%d", k))
+	}
+	for _, k := range []int{2, 27, 54} {
+		p := h.genJumpHeavy(k, 1+h.c.Rng.Intn(2))
+		h.opDis(p)
+		h.c.Count("jumpheavy/off-boundary")
 	}
 }
 
@@ -1335,7 +1427,7 @@ func (h *c09) line(l string) {
 }
 
 func runC09(c *Ctx) {
-	c.Rule = "ParseProgram/Disassemble on every byte string of length <= 2 (and, digested, on all 3-byte strings: 256 first bytes in the thorough tier, 8 in quick), on random strings <= 300 bytes and on grammar-generated programs (canonical and non-canonical pushes incl. truncated PUSHDATA1/2/4, jumps to boundaries / off boundaries / past the end, expansion opcodes); Assemble on every disassembly and on generated token streams (names, hex, quoted strings with escapes, decimal numbers around 2^64 and 2^256, labels, numeric jumps, every Unicode space bufio knows, tokens around the 64 KiB Scanner limit); PushDataBytes for every length 0..300 and 65535..65537, 70000; all builders and recognisers on argument lengths 0..77, 255..257, 1000, 65535.., random programs and mutated builder outputs; for every standard program (P2WPKH, P2WSH, P2PKHSig, P2SH, multisig, coinbase, retire, BCRP register / call) every alternative encoding of every push (DATA_n / PUSHDATA1/2/4 / OP_1..16 / numbers with redundant zero bytes / JUMP carrying the payload) and near-misses (one instruction more or less, wrong version opcode, payload length +-1) through all recognisers, extractors and converters, with the converse oracle (accepted => builder on the extracted parameters returns exactly these bytes). A case is distinct by its op line; non-trivial = reaches ParseOp/Assemble with a non-empty input."
+	c.Rule = "ParseProgram/Disassemble on every byte string of length <= 2 (and, digested, on all 3-byte strings: 256 first bytes in the thorough tier, 8 in quick), on random strings <= 300 bytes and on grammar-generated programs (canonical and non-canonical pushes incl. truncated PUSHDATA1/2/4, jumps to boundaries / off boundaries / past the end, expansion opcodes); Assemble on every disassembly and on generated token streams (names, hex, quoted strings with escapes, decimal numbers around 2^64 and 2^256, labels, numeric jumps, every Unicode space bufio knows, tokens around the 64 KiB Scanner limit); PushDataBytes for every length 0..300 and 65535..65537, 70000; all builders and recognisers on argument lengths 0..77, 255..257, 1000, 65535.., random programs and mutated builder outputs; for every standard program (P2WPKH, P2WSH, P2PKHSig, P2SH, multisig, coinbase, retire, BCRP register / call) every alternative encoding of every push (DATA_n / PUSHDATA1/2/4 / OP_1..16 / numbers with redundant zero bytes / JUMP carrying the payload) and near-misses (one instruction more or less, wrong version opcode, payload length +-1) through all recognisers, extractors and converters, with the converse oracle (accepted => builder on the extracted parameters returns exactly these bytes); jump-heavy programs with k distinct JUMP/JUMPIF targets on instruction boundaries (start and end included), k in {1,2,25,26,27,28,52,53,54,100} (thorough also 259..261, 700), label numbers in random order, plus off-boundary variants. A case is distinct by its op line; non-trivial = reaches ParseOp/Assemble with a non-empty input."
 	h := &c09{c: c, reports: map[string]int{}, family: map[string]int{}}
 	replaying := c.Replay != ""
 	lines := c.CorpusLines()
@@ -1401,6 +1493,14 @@ func runC09(c *Ctx) {
 		for _, n := range c09bigLens {
 			h.opBuildN(k, n, byte(1+r.Intn(255)))
 		}
+	}
+	// -- jump-heavy programs: k distinct jump targets (label naming beyond the 26 words)
+	jr := 2
+	if c.Tier != "quick" {
+		jr = 6
+	}
+	for i := 0; i < jr; i++ {
+		h.jumpHeavy()
 	}
 	// -- alternative encodings of every standard program through every recogniser / converter
 	rounds := 2
